@@ -2,6 +2,7 @@ import EdpVerif.Drv.Etf
 import EdpVerif.Generated.Control
 import EdpVerif.Impl.Recv
 import EdpVerif.Spec.Peer
+import EdpVerif.Spec.DistHeader
 /-!
 Driver requests of property C06.
 
@@ -9,7 +10,13 @@ Driver requests of property C06.
   `,`-separated hex bodies, `-` = tick (empty body). Prints `r₁/r₂/…` (`-` when nothing was returned).
 * `c06oracle <conn|rh> <pt|hdr> <oracle> <frames> <results> <lenient seqs|->` — the reference receiver of Spec/Peer.lean reads the same
   frames by the protocol and judges what the implementation returned (`results`, same text form).
+* `c06cache <oracle> <frames>` — after the history, the model's atom cache (`Recv.after`) and the reference receiver's hold
+  the same atom in every slot the reference receiver still vouches for (not in `RState.taint`): the theorem's guard
+  (`wroteSlots`/`Avoids`) and the oracle's rule for malformed headers describe the same cache.
 * `c06form <pt|hdr|frag> …` — the frames the harness' peer sent are the frames Spec/Peer.lean part 1 builds.
+* `c06form chist <long;entries;terms;frame>/…` — the header-mode messages the harness' peer sent are a history of the
+  conforming sender of Spec/DistHeader.lean (`Conforming`, decided by the instance below) and their frames are
+  `131, 68, sendHeader long entries, terms`: the histories the header-mode theorems of Props/C06.lean quantify over.
 -/
 namespace Edp.Drv
 open Edp Edp.Control
@@ -145,6 +152,19 @@ def c06oracle (api mode : String) (o : Oracle) (frames : List Bytes) (results : 
   | none => "ok"
   | some why => "FAIL " ++ why
 
+def c06finalState (inflate : Bytes → Option (Bytes × Nat)) : Spec.Peer.RState → List Bytes → Spec.Peer.RState
+  | s, [] => s
+  | s, f :: fs => c06finalState inflate (Spec.Peer.readFrame inflate s f).1 fs
+
+def c06cacheCheck (o : Oracle) (frames : List Bytes) : String :=
+  let ms := (Recv.after o.ext c06tbl Recv.St.init (frames.map fun f => (0, f))).cache.slots
+  let os := c06finalState o.env.inflate {} frames
+  let keys := (ms.map (·.1) ++ os.cache.map (·.1)).eraseDups
+  let bad := keys.filter fun k => !os.taint.contains k && (ms.lookup k).bind utf8Decode != os.cache.lookup k
+  match bad with
+  | [] => "ok"
+  | k :: _ => s!"FAIL cache slot ({k.1},{k.2}) differs between the model and the reference receiver"
+
 def c06wire (ctl pay : String) : Except String Spec.Peer.Wire := do
   let c ← getHex ctl
   let p ← if pay == "-" then pure none else (getHex pay).map some
@@ -156,16 +176,58 @@ def c06atoms (s : String) : Except String (List Bytes) :=
 def c06nats (s : String) : List Nat :=
   if s == "-" then [] else (s.splitOn ",").map String.toNat!
 
+/-- `Spec.DistHeader.Conforming` is decidable (the driver evaluates the very predicate the theorems assume) -/
+def c06decConforming (long : Bool) : (s : Spec.DistHeader.Slots) → (es : List Spec.DistHeader.Entry) →
+    Decidable (Spec.DistHeader.Conforming long s es)
+  | _, [] => isTrue trivial
+  | s, e :: r =>
+    have : Decidable (Spec.DistHeader.Conforming long (Spec.DistHeader.upd s e) r) := c06decConforming long _ r
+    by unfold Spec.DistHeader.Conforming; exact inferInstance
+
+instance (long : Bool) (s : Spec.DistHeader.Slots) (es : List Spec.DistHeader.Entry) :
+    Decidable (Spec.DistHeader.Conforming long s es) := c06decConforming long s es
+
+def c06entry (w : String) : Except String Spec.DistHeader.Entry :=
+  match w.splitOn ":" with
+  | [a, seg, idx, n] => do
+    let atom ← if a == "." then pure [] else getHex a
+    pure { atom := atom, seg := seg.toNat!, idx := idx.toNat!, new := n == "n" }
+  | _ => .error "bad entry"
+
+/-- the sender's cache, message by message -/
+def c06chist : Nat → Spec.DistHeader.Slots → List String → Except String String
+  | _, _, [] => .ok "ok"
+  | k, s, m :: ms =>
+    match m.splitOn ";" with
+    | [long, ents, terms, frame] => do
+      let es ← if ents == "-" then pure [] else (ents.splitOn ",").mapM c06entry
+      let t ← if terms == "-" then pure [] else getHex terms
+      let f ← getHex frame
+      let lg := long == "1"
+      if es.length > 255 then pure s!"FAIL message {k}: more than 255 references"
+      else if !decide (Spec.DistHeader.Conforming lg s es) then pure s!"FAIL message {k}: not a conforming sender's header"
+      else if !es.all (fun e => validUtf8 e.atom) then pure s!"FAIL message {k}: atom text not UTF-8"
+      else if 131 :: 68 :: (Spec.DistHeader.sendHeader lg es ++ t) != f then pure s!"FAIL message {k}: frame differs from sendHeader"
+      else c06chist (k + 1) (Spec.DistHeader.sendSlots s es) ms
+    | _ => .error "bad message"
+
 def handleC06 : List String → Option String
   | ["c06recv", api, o, fr] => some <| run do
     let frames ← c06frames fr
     let x := (parseOracle o).ext
     if api == "rh" then pure (Recv.resultsText (Recv.recvAllRH x c06tbl frames))
-    else pure (Recv.resultsText (Recv.recvAll x c06tbl Recv.St.init frames))
+    -- every frame of a harness history is read within a few seconds of the first: far inside the 30 s fragment timeout,
+    -- so the logical clock stands still
+    else pure (Recv.resultsText (Recv.recvAll x c06tbl Recv.St.init (frames.map fun f => (0, f))))
   | ["c06oracle", api, mode, o, fr, res, len] => some <| run do
     let frames ← c06frames fr
     let results := if res == "-" then [] else res.splitOn "/"
     pure (c06oracle api mode (parseOracle o) frames results (c06nats len))
+  | ["c06cache", o, fr] => some <| run do
+    let frames ← c06frames fr
+    pure (c06cacheCheck (parseOracle o) frames)
+  | ["c06form", "chist", h] => some <| run do
+    if h == "-" then pure "ok" else c06chist 1 [] (h.splitOn "/")
   | ["c06form", "pt", ctl, pay, fr] => some <| run do
     let w ← c06wire ctl pay
     let f ← getHex fr
